@@ -450,7 +450,7 @@ def _atheris(ctx, runs: int):
                         b"\x03www", b"\x00\x00\x00\x3c\x00\x02\xc0\x0c", b".", b"\x3f", b"\x40", b"xn--mnchen-3ya", b"xn--a"]:
                 f.write('"' + "".join("\\x%02x" % c for c in tok) + '"\n')
         cmd = [sys.executable, "-W", "ignore", target, "-runs=%d" % runs, "-seed=%d" % (ctx.shard_seed % (1 << 31) or 1),
-               "-max_len=600", "-timeout=30", "-rss_limit_mb=4096", "-print_final_stats=1", "-dict=" + dic,
+               "-max_len=600", "-timeout=30", "-max_total_time=1500", "-rss_limit_mb=4096", "-print_final_stats=1", "-dict=" + dic,
                "-artifact_prefix=" + work + "/", corpus]
         p = subprocess.run(cmd, env=env, stdout=subprocess.PIPE, stderr=subprocess.STDOUT, timeout=3 * 3600)
         out = p.stdout.decode("latin-1")
